@@ -38,7 +38,7 @@ def consts(**kw):
 STAGE = {
     "quick": [("N4-P1", consts(), 1, None), ("N3-P2", consts(N=3, P=2, MaxEvals=1), 8, [0, 1]),
               ("N5-P1", consts(N=5, P=1, VPos=1, MaxEvals=1), 1, None), ("N4-P2", consts(N=4, P=2, VPos=1, MaxEvals=1), 16, [0])],
-    "thorough": [("N4-P1", consts(), 1, None), ("N3-P2", consts(N=3, P=2), 8, None), ("N5-P1", consts(N=5, P=1), 1, None),
+    "thorough": [("N4-P1", consts(), 1, None), ("N3-P2", consts(N=3, P=2), 8, None), ("N5-P1", consts(N=5, P=1, MaxEvals=1), 1, None),
                  ("N4-P2", consts(N=4, P=2, MaxEvals=1), 64, list(range(16))), ("N4-P3", consts(N=4, P=3, VPos=1, VNeg=1, MaxEvals=1), 256, list(range(16))),
                  ("N6-P1", consts(N=6, P=1, VPos=1, MaxEvals=1), 1, None)],
 }
@@ -212,10 +212,12 @@ def run(tier: str) -> int:
     with Workdir(PROP) as wd:
         cases = []
         for label, cs, nsl, slices in STAGE[tier]:
-            stages.model_check(chk, "Costs", cs, INVS, wd=wd, label="A:" + label, coverage=(tier == "thorough"),
-                               expect_actions=("Fit", "Evaluate"))
             if slices is not None:
                 slices = sorted({(s + chk.seed) % nsl for s in slices})
+            # large input spaces: stage A model-checks one slice of the initial states (stage B replays more)
+            cs_a = cs if nsl == 1 or cs["N"] * cs["P"] <= 6 else dict(cs, NSlices=nsl, Slice=(slices or [0])[0], MaxEvals=min(cs["MaxEvals"], 1))
+            stages.model_check(chk, "Costs", cs_a, INVS, wd=wd, label="A:" + label, coverage=(tier == "thorough"),
+                               expect_actions=("Fit",) + (("Evaluate",) if cs_a["MaxEvals"] > 0 else ()))
             cases += stages.emit_cases(chk, "Costs", cs, wd=wd, label="B:" + label, invariants=("EmitFitted",),
                                        nslices=nsl, slices=slices)
         uniq = {}
